@@ -4,6 +4,7 @@ import EgVerif.Gen.FactsC16
 import EgVerif.Gen.FactsC16Locks
 import EgVerif.Proofs.BrokerSessionsIR
 import EgVerif.Proofs.SessionQoSIR
+import EgVerif.Proofs.BrokerSessionsWatch
 /-!
 # C16 — MQTT sessions survive reconnect and client-id takeover as cleanSession dictates
 
@@ -730,7 +731,8 @@ theorem lock_scopes_inner :
     Gen.FactsC16Locks.sessMgrGetRegions =
       [("", ["SessionManager.newSessionFromYaml", "storage.get", "sync.Map.Load", "sync.Map.Store"])] ∧
     Gen.FactsC16Locks.sessMgrDelLocalRegions = [("", ["Session.close", "sync.Map.LoadAndDelete"])] ∧
-    Gen.FactsC16Locks.sessMgrDelDBRegions = [("", ["storage.delete"])] ∧
+    -- (round 2: `delDB` of fixes/C16-own-delete-event.patch — look-up, announcement, delete; order: `own_delete_facts`)
+    Gen.FactsC16Locks.sessMgrDelDBRegions = [("", ["SessionManager.addOwnDelete", "storage.delete", "storage.get"])] ∧
     Gen.FactsC16Locks.sessMgrNewSessionFromConnRegions = [("", ["sync.Map.Store"])] ∧
     evBefore Gen.FactsC16Locks.sessMgrDoStoreEvents ("", "SessionManager.storeCh.recv") ("", "storage.put") = true ∧
     Gen.FactsC16Locks.topicMgrSubscribeRegions = [("TopicManager", ["TopicManager.getLevels", "TopicManager.insert"])] ∧
@@ -822,5 +824,660 @@ example :
     let s := SessionQoS.evRun SessionQoS.Q.init
       [.subscribe [(7, 0)], .subscribe [(7, 1), (9, 0)], .unsubscribe [9], .reconnect]
     s.live = [(7, 1)] ∧ s.db = [(7, 1)] ∧ s.tm = [(7, 1)] := by decide
+
+/-! ### Extension mqtt round 2: origin of delete events -/
+
+/-- states of the model with origins reachable from the empty broker; `fixed = true`: with
+`fixes/C16-own-delete-event.patch`, `fixed = false`: the code before it (the takeover-teardown patch is
+in either way) -/
+inductive OReach (fixed : Bool) : OSt → Prop
+  | init : OReach fixed oinit
+  | step {s s' : OSt} (a : Act) : OReach fixed s → ostep fixed s a = some s' → OReach fixed s'
+
+theorem oreach_inv {fixed : Bool} {s : OSt} (r : OReach fixed s) : OInv fixed s := by
+  induction r with
+  | init => exact oinv_init fixed
+  | step a _ hs ih => exact oinv_step ih hs
+
+/-- **origin_queue_sound.** In every reachable state of either code: the ghost queue lists exactly
+the events in flight; the broker expects at most as many echoes as teardown-origin events are
+queued; the connection whose teardown emitted a queued event has ended (it is past its read loop or
+disconnected); and the base state still satisfies the invariant of the coarse model — the
+registered, live, re-subscribed connection has its open session in the session map with all its
+topics routed, and no `Session.close()` hit a closed session. -/
+theorem origin_queue_sound {fixed : Bool} {s : OSt} (r : OReach fixed s) :
+    s.origins.length = s.base.watch ∧ s.own ≤ countT s.origins ∧ (fixed = false → s.own = 0) ∧
+    (∀ j, Origin.teardownOf j ∈ s.origins → ended s.base j) ∧
+    (∀ k, s.base.client = some k → (s.base.conn k).disc = false → (s.base.conn k).pc = Pc.running →
+      s.base.sessMap = some (s.base.conn k).sess ∧ (s.base.sess (s.base.conn k).sess).closed = false ∧
+      ∀ f ∈ (s.base.sess (s.base.conn k).sess).topics, f ∈ s.base.topicMgr) ∧
+    s.base.doubleClose = false := by
+  have h := oreach_inv r
+  refine ⟨h.len, h.ownLe, h.ownZero, h.tdEnded, ?_, h.inv.noDouble⟩
+  intro k hc hd hr
+  have hsm := h.inv.owns k hc hd (by simp [hr, Pc.active])
+  exact ⟨hsm, (h.inv.openS _ hsm).1, h.inv.routed k hc hd hr⟩
+
+/-- the run of notes/AUDIT.md: connection 0 (clean session) ends, its teardown runs (`delDB` ⇒ a delete
+event) but its `c.close()` / `removeClient` are still pending; connection 1 takes the id over and
+subscribes; then the event fires. -/
+def staleTakeover : List Act :=
+  [.connectLocked 0 true, .storeSess 0, .resubscribe 0, .noticeEnd 0, .cleanup 0,
+   .connectLocked 1 true, .storeSess 1, .resubscribe 1, .subscribe 1 7, .close 0, .remove 0, .watchFires]
+
+/-- plain reconnect: connection 0 is completely gone before connection 1 connects -/
+def staleReconnect : List Act :=
+  [.connectLocked 0 true, .storeSess 0, .resubscribe 0, .noticeEnd 0, .cleanup 0, .close 0, .remove 0,
+   .connectLocked 1 true, .storeSess 1, .resubscribe 1, .subscribe 1 7, .watchFires]
+
+/-- **The code before `C16-own-delete-event.patch` violates the property** (witness; every step of both
+runs is enabled): the event that fires last was emitted by connection 0's own teardown
+(`teardownOf 0`), connection 1 is registered, live and in its read loop — and the event disconnects and
+unregisters connection 1. -/
+theorem stale_teardown_event_disconnects_new_connection :
+    (∀ l ∈ [staleTakeover, staleReconnect],
+      ((orunAll false oinit l.dropLast).map (fun s =>
+        decide (s.origins = [Origin.teardownOf 0] ∧ s.base.client = some 1 ∧ (s.base.conn 1).disc = false ∧
+          (s.base.conn 1).pc = Pc.running))) = some true ∧
+      ((orunAll false oinit l).map (fun s =>
+        decide (s.base.client = none ∧ (s.base.conn 1).disc = true))) = some true) := by decide
+
+/-- the same two histories on the repaired code: every step is enabled, the event is dropped,
+connection 1 stays registered and live with its session and its subscription -/
+theorem repaired_ignores_stale_teardown_event :
+    (∀ l ∈ [staleTakeover, staleReconnect],
+      ((orunAll true oinit l).map (fun s =>
+        decide (s.base.client = some 1 ∧ (s.base.conn 1).disc = false ∧ s.base.sessMap = some (s.base.conn 1).sess ∧
+          s.base.topicMgr = [7] ∧ s.base.watch = 0 ∧ s.origins = [] ∧ s.own = 0))) = some true) := by decide
+
+/-- **expected_event_dropped.** While the repaired broker still expects the echo of an own delete
+(`own > 0`), the next delete event is dropped: registration, every connection record, session map,
+session objects, persisted copy and TopicManager are untouched; only the event is gone. -/
+theorem expected_event_dropped {s s' : OSt} (hown : 0 < s.own) (hs : ostep true s Act.watchFires = some s') :
+    s'.base.client = s.base.client ∧ s'.base.conn = s.base.conn ∧ s'.base.sessMap = s.base.sessMap ∧
+    s'.base.sess = s.base.sess ∧ s'.base.db = s.base.db ∧ s'.base.topicMgr = s.base.topicMgr ∧
+    s'.base.watch = s.base.watch - 1 ∧ s'.origins = s.origins.tail ∧ s'.own = s.own - 1 := by
+  rw [BrokerSessions.expected_event_dropped hown hs]
+  exact ⟨rfl, rfl, rfl, rfl, rfl, rfl, rfl, rfl, rfl⟩
+
+/-- histories of the repaired code in which no admin-origin event is delivered while a
+teardown-origin event is queued behind it (`overtakes`) -/
+inductive OReachCalm : OSt → Prop
+  | init : OReachCalm oinit
+  | step {s s' : OSt} (a : Act) : OReachCalm s → overtakes s a = false → ostep true s a = some s' → OReachCalm s'
+
+theorem calm_reach {s : OSt} (r : OReachCalm s) : OReach true s := by
+  induction r with
+  | init => exact OReach.init
+  | step a _ _ hs ih => exact OReach.step a ih hs
+
+/-- in such histories the bookkeeping is exact: the broker expects precisely the queued teardown-origin events -/
+theorem calm_exact {s : OSt} (r : OReachCalm s) : s.own = countT s.origins := by
+  induction r with
+  | init => rfl
+  | step a r0 hno hs ih => exact exact_step (oreach_inv (calm_reach r0)) ih hs hno
+
+/-- **teardown_event_never_disconnects** — the repaired code, every history without an overtaken
+admin event, every point of it. The delete event at the head of the queue was emitted by the
+teardown of connection `j`. Then its handling is enabled and changes NOTHING but the queue:
+whoever is registered by now — a connection that reconnected, or took the id over while `j`'s
+teardown was in progress — keeps its registration, its record (not disconnected), the session map
+entry, every session object, the persisted copy and the TopicManager entries.
+
+Full statement (for EVERY reachable state of the repaired code) is FALSE:
+`repaired_residual_overtaken_admin_event` below; it is the known finding
+`C16-own-delete-echo-behind-admin-event`. -/
+theorem teardown_event_never_disconnects {s : OSt} (r : OReachCalm s) {j : Nat} {rest : List Origin}
+    (ho : s.origins = Origin.teardownOf j :: rest) :
+    ∃ s', ostep true s Act.watchFires = some s' ∧
+      s'.base.client = s.base.client ∧ s'.base.conn = s.base.conn ∧ s'.base.sessMap = s.base.sessMap ∧
+      s'.base.sess = s.base.sess ∧ s'.base.db = s.base.db ∧ s'.base.topicMgr = s.base.topicMgr ∧
+      s'.base.watch = s.base.watch - 1 ∧ s'.origins = rest := by
+  have hi := oreach_inv (calm_reach r)
+  have hen := watchFires_enabled hi (by rw [ho]; simp)
+  cases hs : ostep true s Act.watchFires with
+  | none => simp [hs] at hen
+  | some s' =>
+    have hown := exact_teardown_head (calm_exact r) ho
+    obtain ⟨h1, h2, h3, h4, h5, h6, h7, h8, _⟩ := expected_event_dropped hown hs
+    exact ⟨s', rfl, h1, h2, h3, h4, h5, h6, h7, by rw [h8, ho]; rfl⟩
+
+/-- the same for a single state, with the exactness of the bookkeeping as the excluding hypothesis -/
+theorem teardown_event_ignored_partial {s s' : OSt} (he : s.own = countT s.origins) {j : Nat} {rest : List Origin}
+    (ho : s.origins = Origin.teardownOf j :: rest) (hs : ostep true s Act.watchFires = some s') :
+    s'.base.client = s.base.client ∧ s'.base.conn = s.base.conn ∧ s'.base.sessMap = s.base.sessMap ∧
+    s'.own = countT s'.origins := by
+  have hown := exact_teardown_head he ho
+  obtain ⟨h1, h2, h3, _, _, _, _, h8, h9⟩ := expected_event_dropped hown hs
+  refine ⟨h1, h2, h3, ?_⟩
+  rw [h9, h8, ho, List.tail_cons, he, ho, countT_cons_teardown]; rfl
+
+/-- **admin_event_disconnects_victim** — "deleting a session through the admin endpoint disconnects
+that client", both codes, every reachable state. The delete event at the head of the queue stems from
+an admin delete issued while connection `v` was registered. After its handling `v` is not the
+registered live connection — whether the event was delivered (`deleteSession`) or, in the repaired
+code, taken for an expected echo and dropped (which happens only when a teardown-origin event is
+queued behind it; then `v` had already gone). -/
+theorem admin_event_disconnects_victim {fixed : Bool} {s s' : OSt} (r : OReach fixed s) {v : Nat} {rest : List Origin}
+    (ho : s.origins = Origin.admin (some v) :: rest) (hs : ostep fixed s Act.watchFires = some s') :
+    ¬ (s'.base.client = some v ∧ (s'.base.conn v).disc = false ∧ (s'.base.conn v).pc.active = true) :=
+  admin_event_victim_gone (oreach_inv r) ho hs
+
+/-- **admin_event_delivered** — in a history without an overtaken admin event (and always in the code
+before the patch) an admin-origin event with no teardown-origin event queued behind it is DELIVERED:
+whoever is registered is marked disconnected and unregistered (as `admin_delete_disconnects`). -/
+theorem admin_event_delivered {s s' : OSt} (r : OReachCalm s) {c : Option Nat} {rest : List Origin}
+    (ho : s.origins = Origin.admin c :: rest) (hq : countT rest = 0)
+    (hs : ostep true s Act.watchFires = some s') :
+    s'.base.client = none ∧ ∀ o, s.base.client = some o → (s'.base.conn o).disc = true := by
+  have he := calm_exact r
+  rw [ho, countT_cons_admin, hq] at he
+  exact delivered_event_disconnects (Or.inr he) hs
+
+theorem admin_event_delivered_unrepaired {s s' : OSt} (hs : ostep false s Act.watchFires = some s') :
+    s'.base.client = none ∧ ∀ o, s.base.client = some o → (s'.base.conn o).disc = true :=
+  delivered_event_disconnects (Or.inl rfl) hs
+
+/-- **teardown_event_own_connection_harmless** — the code before the patch (and a delivered event in
+general). The event at the head of the queue was emitted by connection `j`'s teardown; `j` has ended
+(it is past its read loop, or disconnected). `deleteSession` touches nothing but the registration and
+the registered connection's flags: session map, session objects, persisted copy, TopicManager and
+the record of every connection that is not the registered one stay. So when `j` itself is still the
+registered one (or nobody is), the event changes nothing that matters — the defect needs ANOTHER
+connection to be registered by then. -/
+theorem teardown_event_own_connection_harmless {fixed : Bool} {s s' : OSt} (r : OReach fixed s) {j : Nat}
+    {rest : List Origin} (ho : s.origins = Origin.teardownOf j :: rest)
+    (hs : ostep fixed s Act.watchFires = some s') :
+    ended s.base j ∧ s'.base.sessMap = s.base.sessMap ∧ s'.base.sess = s.base.sess ∧ s'.base.db = s.base.db ∧
+    s'.base.topicMgr = s.base.topicMgr ∧ ∀ k, s.base.client ≠ some k → s'.base.conn k = s.base.conn k := by
+  have hi := oreach_inv r
+  refine ⟨hi.tdEnded j (by rw [ho]; simp), ?_⟩
+  obtain ⟨_, hc⟩ := watchFires_cases hs
+  rcases hc with ⟨_, _, e⟩ | ⟨_, e⟩
+  · subst e; exact ⟨rfl, rfl, rfl, rfl, fun _ _ => rfl⟩
+  · subst e
+    obtain ⟨h1, h2, h3, h4, _, h6⟩ := deleteSession_frame s.base
+    exact ⟨h1, h2, h3, h4, h6⟩
+
+/-- the residual: connection 0 (clean session) is connected; an admin delete of the id is issued but its
+event is not yet delivered; connection 0 subscribes (the session is stored again) and ends (own `delDB`:
+the broker now expects ONE echo); connection 1 connects; the admin event arrives first and is taken for
+the echo; then the echo itself arrives, unexpected. -/
+def residualRun : List Act :=
+  [.connectLocked 0 true, .storeSess 0, .resubscribe 0, .adminDelete, .subscribe 0 7, .noticeEnd 0, .cleanup 0,
+   .close 0, .remove 0, .connectLocked 1 true, .storeSess 1, .resubscribe 1, .watchFires, .watchFires]
+
+/-- **Residual of the repaired code** (witness, every step enabled): before the last step the queue
+holds only connection 0's teardown-origin event, the broker expects nothing (`own = 0` — the admin
+event used the slot up), connection 1 is registered, live and in its read loop; the event is handled
+like a foreign delete and disconnects connection 1. The first `watchFires` of this run is the only
+`overtakes` step. Known finding `C16-own-delete-echo-behind-admin-event`. -/
+theorem repaired_residual_overtaken_admin_event :
+    ((orunAll true oinit residualRun.dropLast).map (fun s =>
+        decide (s.origins = [Origin.teardownOf 0] ∧ s.own = 0 ∧ s.base.client = some 1 ∧
+          (s.base.conn 1).disc = false ∧ (s.base.conn 1).pc = Pc.running))) = some true ∧
+    ((orunAll true oinit residualRun).map (fun s =>
+        decide (s.base.client = none ∧ (s.base.conn 1).disc = true))) = some true ∧
+    ((orunAll true oinit (residualRun.take 12)).map (fun s => overtakes s Act.watchFires)) = some true := by
+  decide
+
+/-! #### non-vacuity -/
+
+/-- all-or-nothing execution that also checks that no step overtakes -/
+def orunCalm : OSt → List Act → Option OSt
+  | s, [] => some s
+  | s, a :: rest => if overtakes s a then none else (ostep true s a).bind (fun s' => orunCalm s' rest)
+
+theorem calm_orunCalm {s s' : OSt} {l : List Act} (r : OReachCalm s) (h : orunCalm s l = some s') : OReachCalm s' := by
+  induction l generalizing s with
+  | nil => simp [orunCalm] at h; subst h; exact r
+  | cons a rest ih =>
+    simp only [orunCalm] at h
+    cases ho : overtakes s a with
+    | true => simp [ho] at h
+    | false =>
+      simp only [ho, Bool.false_eq_true, if_false] at h
+      cases hs : ostep true s a with
+      | none => simp [hs] at h
+      | some s1 => simp [hs] at h; exact ih (OReachCalm.step a r ho hs) h
+
+/-- `teardown_event_never_disconnects` is not vacuous: both stale histories, up to the last step, are
+calm histories of the repaired code that end with connection 0's teardown-origin event at the head
+of the queue while connection 1 is registered, live and in its read loop. -/
+example : ∀ l ∈ [staleTakeover, staleReconnect],
+    ((orunCalm oinit l.dropLast).map (fun s =>
+      decide (s.origins = [Origin.teardownOf 0] ∧ s.own = 1 ∧ s.base.client = some 1 ∧
+        (s.base.conn 1).disc = false ∧ (s.base.conn 1).pc = Pc.running))) = some true := by decide
+
+example : OReachCalm ((orunCalm oinit staleTakeover.dropLast).getD oinit) := by
+  cases h : orunCalm oinit staleTakeover.dropLast with
+  | none => exact OReachCalm.init
+  | some s' => exact calm_orunCalm OReachCalm.init h
+
+/-- `admin_event_disconnects_victim` / `admin_event_delivered`: a calm history with an admin-origin event
+(victim: connection 0, registered and live) at the head of the queue; and the dropped-admin-event case of
+`admin_event_disconnects_victim` is met by `residualRun.take 12` (head `admin (some 0)`, `own = 1`). -/
+example :
+    ((orunCalm oinit [.connectLocked 0 false, .storeSess 0, .resubscribe 0, .adminDelete]).map (fun s =>
+      decide (s.origins = [Origin.admin (some 0)] ∧ s.base.client = some 0 ∧ (s.base.conn 0).disc = false))) = some true ∧
+    ((orunAll true oinit (residualRun.take 12)).map (fun s =>
+      decide (s.origins = [Origin.admin (some 0), Origin.teardownOf 0] ∧ s.own = 1 ∧ s.base.client = some 1))) = some true := by
+  decide
+
+/-- `teardown_event_own_connection_harmless` with `j` itself still registered: the event fires between
+`cleanup 0` and `close 0` (code before the patch). -/
+example :
+    ((orunAll false oinit [.connectLocked 0 true, .storeSess 0, .resubscribe 0, .noticeEnd 0, .cleanup 0]).map (fun s =>
+      decide (s.origins = [Origin.teardownOf 0] ∧ s.base.client = some 0))) = some true := by decide
+
+/-- `delDB` of the repaired code with nothing stored (after an admin delete): no delete, no event, nothing expected -/
+example :
+    ((orunAll true oinit [.connectLocked 0 true, .storeSess 0, .resubscribe 0, .adminDelete, .watchFires,
+        .noticeEnd 0, .cleanup 0]).map (fun s => decide (s.origins = [] ∧ s.own = 0 ∧ s.base.watch = 0))) = some true := by
+  decide
+
+
+/-- **own_delete_facts** — the source facts the origin model assumes about
+`fixes/C16-own-delete-event.patch`, regenerated on every run (`Gen/FactsC16Locks`, control-flow order):
+`delDB` looks the key up first, announces the own delete (`addOwnDelete`) BEFORE `store.delete` and
+retracts it after it; `watchDelete` consults `takeOwnDelete` before it starts `deleteSession`;
+`reconnectWatcher` forgets the expected echoes after the new watch exists and before the new
+`watchDelete` loop runs; the admin endpoint only deletes (it does not announce an own delete);
+`addOwnDelete` / `takeOwnDelete` touch nothing but the counter map. -/
+theorem own_delete_facts :
+    Gen.FactsC16Locks.extractionFailed = false ∧
+    Gen.FactsC16Locks.sessMgrDelDBEvents =
+      [("", "storage.get"), ("", "SessionManager.addOwnDelete"), ("", "storage.delete"),
+       ("", "SessionManager.addOwnDelete")] ∧
+    Gen.FactsC16Locks.watchDeleteEvents =
+      [("", "Broker.done.recv"), ("", "go Broker.reconnectWatcher"), ("", "SessionManager.takeOwnDelete"),
+       ("", "go Broker.deleteSession")] ∧
+    evBefore Gen.FactsC16Locks.reconnectWatcherEvents ("", "storage.watchDelete") ("", "SessionManager.resetOwnDeletes") = true ∧
+    evBefore Gen.FactsC16Locks.reconnectWatcherEvents ("", "SessionManager.resetOwnDeletes") ("", "go Broker.watchDelete") = true ∧
+    Gen.FactsC16Locks.httpDeleteSessionHandlerRegions = [("", ["storage.delete"])] ∧
+    Gen.FactsC16Locks.sessMgrAddOwnDeleteRegions =
+      [("", ["SessionManager.ownDeletes.delete", "SessionManager.ownDeletes.load", "SessionManager.ownDeletes.store"])] ∧
+    Gen.FactsC16Locks.sessMgrTakeOwnDeleteRegions =
+      [("", ["SessionManager.ownDeletes.delete", "SessionManager.ownDeletes.load", "SessionManager.ownDeletes.store"])] := by
+  decide
+
+/-! #### AUDIT P2 item 17 (C16): acceptance of the changed spec clause, fine `clean_discards`, the hypothesis of `reconnect_restores` -/
+
+/-- the state between two macro actions: the registered live connection is in its read loop -/
+def Quiescent (s : St) : Prop :=
+  ∀ k, s.client = some k → (s.conn k).disc = false → (s.conn k).pc = Pc.running
+
+theorem project_watch (b : St) (w : Nat) : project { b with watch := w } = { project b with watch := w } := rfl
+
+/-- **violation_accepts_model_partial** — the executable spec accepts the model's own behaviour, for the
+clause this round changed (the delivery of a delete event; the acceptance of the other macro actions —
+connect / sub / unsub / drop / par — is NOT proved: it needs the macro-level invariant and every
+interleaving of `par`). `s` is any reachable state of the repaired model that is quiescent (between two
+macro actions) and whose snapshot is `intact`; the oldest queued event is handled (`watch`), `o` is its
+origin as the judge tracks it (`Track.head`), `ov` the judge's `Track.overtaken` flag. Then
+`Spec.violation` accepts the step, and the origin clause `watchViolation` accepts it too — except in
+exactly one case, which it classifies by the sig of the known finding: a teardown-origin event that the
+broker no longer expects (`own = 0`, the slot was used up by an admin event delivered ahead of it) while
+another connection is registered and live. -/
+theorem violation_accepts_model_partial {s s' : OSt} (r : OReach true s)
+    (hs : ostep true s Act.watchFires = some s') (hq : Quiescent s.base) (hint : intact (project s.base) = true)
+    (ov : Bool) (hov : s.own = 0 → ov = true) :
+    violation (project s.base) MAct.watch false (project s'.base) = none ∧
+    (watchViolation s.origins.head? ov (project s.base) (project s'.base) = none ∨
+      (s.own = 0 ∧ (∃ j rest, s.origins = Origin.teardownOf j :: rest) ∧
+        watchViolation s.origins.head? ov (project s.base) (project s'.base) =
+          some "stale-teardown-event:after-overtaken-admin-event")) := by
+  have hi := oreach_inv r
+  obtain ⟨hpos, hc⟩ := watchFires_cases hs
+  rcases hc with ⟨_, hown, e⟩ | ⟨hz, e⟩
+  · -- the event is dropped: the snapshot changes in `watch` only
+    subst e
+    have hn : project ({ s.base with watch := s.base.watch - 1 } : St) = { project s.base with watch := s.base.watch - 1 } := rfl
+    simp only [hn]
+    constructor
+    · simp only [violation, Bool.false_eq_true, if_false]
+      have : intact { project s.base with watch := s.base.watch - 1 } = intact (project s.base) := rfl
+      simp [this, hint]
+    · left
+      cases ho : s.origins with
+      | nil => simp [watchViolation]
+      | cons o rest =>
+        cases o with
+        | teardownOf j =>
+          simp only [List.head?_cons, watchViolation]
+          cases hreg : (project s.base).reg with
+          | none => simp
+          | some k =>
+            have hw : (project s.base).watch = s.base.watch := rfl
+            have heq : ({ project s.base with watch := s.base.watch } : Snap) = project s.base := by
+              rw [← hw]
+            simp only [hreg] at heq ⊢
+            by_cases hk : (k != j && !(project s.base).regDisc) = true
+            · simp only [hk, if_true]
+              simp only [Bool.and_eq_true, Bool.not_eq_true'] at hk
+              rw [hk.2] at heq
+              simp [hk.2, hw, heq]
+            · simp [hk]
+        | admin c =>
+          cases c with
+          | none => simp [watchViolation]
+          | some v =>
+            simp only [List.head?_cons, watchViolation]
+            have hna := admin_event_victim_gone hi ho hs
+            have hcongr : ¬ alive s.base v := fun ha => hna ha
+            have : ¬ ((project s.base).reg = some v ∧ (project s.base).regDisc = false) := by
+              rintro ⟨h1, h2⟩
+              have hcl : s.base.client = some v := h1
+              have hd : (s.base.conn v).disc = false := by
+                simpa [project, hcl] using h2
+              exact hcongr ⟨hcl, hd, by rw [hq v hcl hd]; rfl⟩
+            by_cases h1 : (project s.base).reg = some v
+            · have h2 : (project s.base).regDisc = true := by
+                cases h3 : (project s.base).regDisc with
+                | true => rfl
+                | false => exact absurd ⟨h1, h3⟩ this
+              simp [h1, h2]
+            · simp [h1]
+  · -- the event is delivered: nobody is registered afterwards
+    subst e
+    have hreg : (project ({ deleteSession s.base with watch := s.base.watch - 1 } : St)).reg = none := by
+      show (deleteSession s.base).client = none
+      cases hcl : s.base.client <;> simp [deleteSession, hcl]
+    have hown : s.own = 0 := by
+      rcases hz with hz | hz
+      · cases hz
+      · exact hz
+    constructor
+    · simp [violation, intact, hreg]
+    · cases ho : s.origins with
+      | nil => left; simp [watchViolation]
+      | cons o rest =>
+        cases o with
+        | admin c =>
+          left
+          cases c with
+          | none => simp [watchViolation]
+          | some v => simp [watchViolation, hreg]
+        | teardownOf j =>
+          simp only [List.head?_cons, watchViolation, hreg, hov hown, if_true]
+          cases hp : (project s.base).reg with
+          | none => left; rfl
+          | some k =>
+            simp only
+            by_cases hk : (k != j && !(project s.base).regDisc) = true
+            · right
+              refine ⟨hown, ⟨j, rest, rfl⟩, ?_⟩
+              simp [hk]
+            · left; simp [hk]
+
+/-- non-vacuity of `violation_accepts_model_partial`: the state before the last step of `staleReconnect` on the
+repaired code is reachable, quiescent (connection 1 registered, live, in its read loop) and intact, with
+connection 0's teardown-origin event at the head of the queue and `own = 1`. -/
+example :
+    ((orunAll true oinit staleReconnect.dropLast).map (fun s =>
+      decide (s.base.client = some 1 ∧ (s.base.conn 1).disc = false ∧ (s.base.conn 1).pc = Pc.running ∧
+        intact (project s.base) = true ∧ s.origins = [Origin.teardownOf 0] ∧ s.own = 1))) = some true := by decide
+
+
+/-- **clean_discards_fine** — `clean_discards` at the fine granularity. The stored session of the id (local
+map, else the persisted copy) has topics `F` and clean flag `c`; connection `k` connects with
+`clean = true` or the stored session is a clean one. For EVERY placement `t₁ t₂ t₃` of fine teardown steps of
+other connections inside `k`'s broker-locked section (`lockConn k; t₁; lkGet k; t₂; lkSnap k; t₃; lkUnsub k` —
+between the registration and `sessMgr.get`, between `get` and `prevSess.allSubscribes()`, between the
+snapshot and `topicMgr.unsubscribe`): `k` ends registered with a NEW session without topics and with its own
+clean flag, that session is the one in the session map, the broker lock is free again, none of `F` is routed
+to the id any more, and the session that was in the session map is closed. -/
+theorem clean_discards_fine {s s' : FSt} (r : FReach s) {k : Nat} {clean c : Bool} {F : List Nat}
+    {t₁ t₂ t₃ : List FAct}
+    (hst : storedSess s.base = some (F, c)) (hcl : clean = true ∨ c = true) (hfresh : (s.base.conn k).disc = false)
+    (h₁ : OthersTeardownF k t₁) (h₂ : OthersTeardownF k t₂) (h₃ : OthersTeardownF k t₃)
+    (hrun : runAllF s (FAct.lockConn k clean :: (t₁ ++ FAct.lkGet k :: (t₂ ++ FAct.lkSnap k :: (t₃ ++
+      [FAct.lkUnsub k])))) = some s') :
+    s'.base.client = some k ∧ s'.base.sessMap = some (s'.base.conn k).sess ∧
+    (s'.base.sess (s'.base.conn k).sess).topics = [] ∧ (s'.base.sess (s'.base.conn k).sess).clean = clean ∧
+    (s'.base.sess (s'.base.conn k).sess).closed = false ∧
+    (∀ f ∈ F, f ∉ s'.base.topicMgr) ∧ (∀ q, s.base.sessMap = some q → (s'.base.sess q).closed = true) ∧
+    s'.lock = Lk.free := by
+  have hi := reach_inv_fine r
+  obtain ⟨s1, hs1, h⟩ := runAllF_cons_eq_some.mp hrun
+  obtain ⟨s2, hr1, h⟩ := runAllF_append_eq_some.mp h
+  obtain ⟨s3, hs2, h⟩ := runAllF_cons_eq_some.mp h
+  obtain ⟨s4, hr3, h⟩ := runAllF_append_eq_some.mp h
+  obtain ⟨s5, hs4, h⟩ := runAllF_cons_eq_some.mp h
+  obtain ⟨s6, hr5, h⟩ := runAllF_append_eq_some.mp h
+  obtain ⟨s7, hs6, h⟩ := runAllF_cons_eq_some.mp h
+  simp only [runAllF, Option.some.injEq] at h
+  have hnot : (!clean && !c) = false := by rcases hcl with h | h <;> simp [h]
+  have hnot2 : ¬ (clean = false ∧ c = false) := by rcases hcl with h | h <;> simp [h]
+  -- lockConn
+  have hi1 := finv_step hi hs1
+  simp only [fstep] at hs1
+  split at hs1
+  case isFalse => cases hs1
+  simp only [Option.some.injEq] at hs1; subst hs1
+  obtain ⟨tsm, tse, tn, td, tdb, ttm, _⟩ := takeoverMark_rest s.base
+  have hd1 : ((takeoverMark s.base).conn k).disc = false := by rw [(takeoverMark_conn s.base k).2.2.1]; exact hfresh
+  -- t₁
+  have f1 := frame_run_fine h₁ hi1 rfl hd1 hr1
+  have hi2 := finv_runAllF hi1 hr1
+  have hlock2 : s2.lock = Lk.connGet k clean := f1.lock
+  have hsm2 : s2.base.sessMap = s.base.sessMap := f1.base.sessMap.trans tsm
+  have hse2 : s2.base.sess = s.base.sess := f1.base.sess.trans tse
+  have hdb2 : s2.base.db = s.base.db := f1.base.db.trans tdb
+  have htm2 : s2.base.topicMgr = s.base.topicMgr := f1.base.topicMgr.trans ttm
+  have hcl2 : s2.base.client = some k := f1.base.client
+  have hd2 : (s2.base.conn k).disc = false := by rw [f1.base.conn]; exact hd1
+  -- lkGet: the discard branch; `r0` = the session that is discarded
+  have hi3 := finv_step hi2 hs2
+  have key : ∃ r0, s3.lock = Lk.connSnap k clean r0 ∧ s3.base.client = some k ∧ (s3.base.conn k).disc = false ∧
+      s3.base.sessMap = some r0 ∧ (s3.base.sess r0).topics = F ∧ s3.base.topicMgr = s.base.topicMgr ∧
+      (∀ q, s.base.sessMap = some q → q = r0) := by
+    simp only [fstep, hlock2, if_true] at hs2
+    unfold storedSess at hst
+    unfold getSess at hs2
+    rw [hsm2, hdb2, hse2] at hs2
+    cases hsm : s.base.sessMap with
+    | some q =>
+      simp only [hsm, Option.some.injEq, Prod.mk.injEq] at hst
+      simp only [hsm, hse2, hst.2, hnot] at hs2
+      simp at hs2; subst hs2
+      exact ⟨q, rfl, hcl2, hd2, hsm2.trans hsm, by rw [hse2]; exact hst.1, htm2, fun q' hq' => by cases hq'; rfl⟩
+    | none =>
+      simp only [hsm] at hst
+      simp only [hsm, hst] at hs2
+      simp [hnot2] at hs2; subst hs2
+      exact ⟨s2.base.nextSess, rfl, hcl2, hd2, rfl, by simp, htm2, fun q' hq' => by cases hq'⟩
+  obtain ⟨r0, hlock3, hcl3, hd3, hsm3, htop3, htm3, hq3⟩ := key
+  -- t₂
+  have f3 := frame_run_fine h₂ hi3 hcl3 hd3 hr3
+  have hi4 := finv_runAllF hi3 hr3
+  have hlock4 : s4.lock = Lk.connSnap k clean r0 := f3.lock.trans hlock3
+  -- lkSnap
+  have hi5 := finv_step hi4 hs4
+  simp only [fstep, hlock4, if_true, Option.some.injEq] at hs4
+  subst hs4
+  have htop4 : (s4.base.sess r0).topics = F := by rw [f3.base.sess]; exact htop3
+  -- t₃
+  have f5 := frame_run_fine h₃ hi5 (f3.base.client.trans hcl3) (by rw [f3.base.conn]; exact hd3) hr5
+  have hi6 := finv_runAllF hi5 hr5
+  have hlock6 : s6.lock = Lk.connUnsub k clean r0 F := by rw [f5.lock]; simp [htop4]
+  have hsm6 : s6.base.sessMap = some r0 := by rw [f5.base.sessMap]; exact f3.base.sessMap.trans hsm3
+  have hlt : r0 < s6.base.nextSess := (hi6.openS r0 hsm6).2
+  have hne : r0 ≠ s6.base.nextSess := by omega
+  have hcl6 : s6.base.client = some k := by rw [f5.base.client]; exact f3.base.client.trans hcl3
+  -- lkUnsub
+  simp only [fstep, hlock6, if_true, Option.some.injEq] at hs6
+  subst hs6; subst h
+  refine ⟨by simp [newSession, closeSess, hcl6], by simp [newSession, closeSess], by simp [newSession, closeSess],
+    by simp [newSession, closeSess], by simp [newSession, closeSess], ?_, ?_, rfl⟩
+  · intro f hf; simp [newSession, closeSess, mem_delAll, hf]
+  · intro q hq; rw [hq3 q hq]; simp [newSession, closeSess, upd_other _ _ hne]
+
+/-- non-vacuity of `clean_discards_fine`: connection 0 holds a persistent session with topic 7 (fine steps),
+connection 1 connects with cleanSession=true while connection 0's read loop notices its end inside 1's
+locked section: every step is enabled; the start state is fine-reachable with the stored session `([7], false)`. -/
+example :
+    let pre : List FAct := [.lockConn 0 false, .lkGet 0, .storeSess 0, .doStore 0, .resubSnap 0, .resubIns 0,
+      .subTM 0 7, .subSess 0, .doStore 0]
+    let s := (runAllF finit pre).getD finit
+    (runAllF finit pre).isSome = true ∧ storedSess s.base = some ([7], false) ∧ (s.base.conn 1).disc = false ∧
+    (runAllF s ([.lockConn 1 true] ++ [.noticeEnd 0] ++ [.lkGet 1] ++ [.lkSnap 1] ++ [.lkUnsub 1])).isSome = true := by
+  decide
+
+
+/-! #### B3: the hypothesis of `reconnect_restores` is met by a theorem -/
+
+/-- the steps connection `k` takes itself between its registration and the end of its read loop -/
+def IsOwnStep (k : Nat) : Act → Prop
+  | .storeSess j | .resubscribe j | .subscribe j _ | .unsubscribe j _ => j = k
+  | _ => False
+
+/-- `k`'s own steps, interleaved with teardown steps of other connections -/
+def SessionTime (k : Nat) (l : List Act) : Prop := ∀ a ∈ l, IsOwnStep k a ∨ ∃ j, j ≠ k ∧ IsTeardownOf j a
+
+/-- connection `k` is registered and live, holds the persistent session `r`, and — once it has stored it —
+the persisted copy is exactly that session -/
+structure Holding (s : St) (k r : Nat) : Prop where
+  client : s.client = some k
+  live : (s.conn k).disc = false
+  sessOf : (s.conn k).sess = r
+  sessMap : s.sessMap = some r
+  persistent : (s.sess r).clean = false
+  act : (s.conn k).pc.active = true
+  stored : (s.conn k).pc ≠ Pc.registered → s.db = some ((s.sess r).topics, false)
+
+theorem holding_step {s s' : St} {k r : Nat} {a : Act} (h : Holding s k r) (hs : step true s a = some s')
+    (ha : IsOwnStep k a ∨ ∃ j, j ≠ k ∧ IsTeardownOf j a) : Holding s' k r := by
+  rcases ha with ha | ⟨j, hj, ha⟩
+  · cases a <;> simp only [IsOwnStep] at ha <;> subst ha <;> simp only [step] at hs
+    case storeSess =>
+      split at hs <;> cases hs
+      constructor <;> simp [setPc, setConn, persist, h.client, h.live, h.sessOf, h.sessMap, h.persistent, Pc.active]
+    case resubscribe =>
+      split at hs <;> cases hs
+      rename_i hpc
+      have hdb := h.stored (by rw [hpc]; simp)
+      constructor <;> simp [setPc, setConn, h.client, h.live, h.sessOf, h.sessMap, h.persistent, Pc.active, hdb]
+    case subscribe f =>
+      split at hs <;> cases hs
+      constructor <;> simp [persist, h.client, h.live, h.sessOf, h.sessMap, h.persistent, h.act]
+    case unsubscribe f =>
+      split at hs <;> cases hs
+      constructor <;> simp [persist, h.client, h.live, h.sessOf, h.sessMap, h.persistent, h.act]
+  · have f := superseded_frame h.client hj h.live ha hs
+    exact ⟨f.client.trans h.client, by rw [f.conn]; exact h.live, by rw [f.conn]; exact h.sessOf,
+      f.sessMap.trans h.sessMap, by rw [f.sess]; exact h.persistent, by rw [f.conn]; exact h.act,
+      fun hp => by rw [f.db, f.sess]; exact h.stored (by rw [← f.conn]; exact hp)⟩
+
+theorem holding_run {k r : Nat} {l : List Act} (hl : SessionTime k l) {s s' : St} (h : Holding s k r)
+    (hr : runAll s l = some s') : Holding s' k r := by
+  induction l generalizing s with
+  | nil => simp [runAll] at hr; subst hr; exact h
+  | cons a rest ih =>
+    obtain ⟨s1, h1, h2⟩ := runAll_cons_eq_some.mp hr
+    exact ih (fun b hb => hl b (List.mem_cons_of_mem _ hb)) (holding_step h h1 (hl a (List.mem_cons_self ..))) h2
+
+/-- **normal_end_keeps_session** — gives the hypothesis of `reconnect_restores`. Connection `k` has just
+been registered with a persistent session (`connectLocked k false` on a persistent or absent previous
+session). It then stores, re-subscribes and processes ANY sequence of its own SUBSCRIBE / UNSUBSCRIBE
+packets, while other (superseded) connections are torn down at any point (`l`); it reaches its read loop;
+its read loop ends normally (`noticeEnd k`, `cleanup k`, again with other teardowns in between,
+`close k`, `removeClient`). Afterwards nobody is registered, the session map is empty, and the stored
+session of the id is exactly the topics `k`'s session held at the end, persistent — so that
+`reconnect_restores` applies to the next CONNECT with cleanSession=false. -/
+theorem normal_end_keeps_session {s s1 s' : St} {k : Nat} {l t₁ t₂ : List Act}
+    (hc : s.client = some k) (hlive : (s.conn k).disc = false) (hpc : (s.conn k).pc = Pc.registered)
+    (hsm : s.sessMap = some (s.conn k).sess) (hper : (s.sess (s.conn k).sess).clean = false)
+    (hl : SessionTime k l) (h₁ : OthersTeardown k t₁) (h₂ : OthersTeardown k t₂)
+    (hr1 : runAll s l = some s1) (hrun1 : (s1.conn k).pc = Pc.running)
+    (hr2 : runAll s1 (Act.noticeEnd k :: (t₁ ++ Act.cleanup k :: (t₂ ++ [Act.close k, Act.remove k]))) = some s') :
+    storedSession s' = some ((s1.sess (s1.conn k).sess).topics, false) ∧ s'.sessMap = none ∧ s'.client = none := by
+  have h0 : Holding s k (s.conn k).sess :=
+    ⟨hc, hlive, rfl, hsm, hper, by rw [hpc]; rfl, fun hp => absurd hpc hp⟩
+  have h1 := holding_run hl h0 hr1
+  generalize (s.conn k).sess = r at h1
+  have hdb1 := h1.stored (by rw [hrun1]; simp)
+  obtain ⟨s2, hs2, h⟩ := runAll_cons_eq_some.mp hr2
+  obtain ⟨s3, hr3, h⟩ := runAll_append_eq_some.mp h
+  obtain ⟨s4, hs4, h⟩ := runAll_cons_eq_some.mp h
+  obtain ⟨s5, hr5, h⟩ := runAll_append_eq_some.mp h
+  obtain ⟨s6, hs6, h⟩ := runAll_cons_eq_some.mp h
+  obtain ⟨s7, hs7, h⟩ := runAll_cons_eq_some.mp h
+  simp only [runAll, Option.some.injEq] at h
+  -- noticeEnd k
+  simp only [step, hrun1, if_true, Option.some.injEq] at hs2
+  subst hs2
+  have c2 : (setPc s1 k Pc.ended).client = some k := by simp [setPc, setConn, h1.client]
+  have l2 : ((setPc s1 k Pc.ended).conn k).disc = false := by simp [setPc, setConn, h1.live]
+  -- t₁
+  have f3 := frame_run h₁ c2 l2 hr3
+  have c3 : s3.client = some k := f3.client.trans c2
+  have e3 : (s3.conn k).sess = r ∧ (s3.conn k).disc = false ∧ (s3.conn k).pc = Pc.ended := by
+    rw [f3.conn]; simp [setPc, setConn, h1.sessOf, h1.live]
+  have sm3 : s3.sessMap = some r := by rw [f3.sessMap]; simpa [setPc, setConn] using h1.sessMap
+  have se3 : s3.sess = s1.sess := by rw [f3.sess]; simp [setPc, setConn]
+  have db3 : s3.db = s1.db := by rw [f3.db]; simp [setPc, setConn]
+  -- cleanup k
+  simp only [step, e3.2.2, if_true, Option.some.injEq] at hs4
+  subst hs4
+  have hsup : superseded s3 k = false := by simp [superseded, c3]
+  have ht : teardown true s3 k = teardownBody s3 k := by simp [teardown, hsup]
+  have hclean : (s3.sess (s3.conn k).sess).clean = false := by rw [e3.1, se3]; exact h1.persistent
+  have tb : (teardownBody s3 k).client = some k ∧ (teardownBody s3 k).conn = s3.conn ∧
+      (teardownBody s3 k).sessMap = none ∧ (teardownBody s3 k).db = s3.db := by
+    unfold teardownBody
+    simp only [sm3, hclean, Bool.false_eq_true, if_false]
+    exact ⟨by simp [closeSess, c3], by simp [closeSess], by simp, rfl⟩
+  rw [ht] at hr5
+  have c4 : (setPc (teardownBody s3 k) k Pc.cleaned).client = some k := by simp [setPc, setConn, tb.1]
+  have l4 : ((setPc (teardownBody s3 k) k Pc.cleaned).conn k).disc = false := by
+    simp [setPc, setConn, tb.2.1, e3.2.1]
+  -- t₂
+  have f5 := frame_run h₂ c4 l4 hr5
+  have c5 : s5.client = some k := f5.client.trans c4
+  have sm5 : s5.sessMap = none := by rw [f5.sessMap]; simp [setPc, setConn, tb.2.2.1]
+  have db5 : s5.db = s1.db := by rw [f5.db]; simp [setPc, setConn, tb.2.2.2, db3]
+  have pc5 : (s5.conn k).pc = Pc.cleaned := by rw [f5.conn]; simp [setPc, setConn]
+  -- close k
+  simp only [step, pc5, if_true, Option.some.injEq] at hs6
+  subst hs6
+  -- remove k
+  have hd6 : ((setPc (markDisc s5 k) k Pc.closed).conn k).disc = true := by simp [setPc, setConn, markDisc]
+  have c6 : (setPc (markDisc s5 k) k Pc.closed).client = some k := by simp [setPc, setConn, markDisc, c5]
+  have pc6 : ((setPc (markDisc s5 k) k Pc.closed).conn k).pc = Pc.closed := by simp [setPc, setConn]
+  simp only [step, pc6, c6, hd6, if_true, Option.some.injEq] at hs7
+  subst hs7; subst h
+  refine ⟨?_, by simp [setPc, setConn, markDisc, sm5], by simp [setPc, setConn]⟩
+  unfold storedSession
+  simp only [setPc, setConn, markDisc, sm5, db5, hdb1, h1.sessOf]
+
+/-- non-vacuity: connection 0 connects persistently, subscribes 7 and 9, unsubscribes 9, ends normally while
+nothing else happens: every step is enabled and the hypotheses of `normal_end_keeps_session` hold with
+`l = [storeSess 0, resubscribe 0, subscribe 0 7, subscribe 0 9, unsubscribe 0 9]`. -/
+example :
+    let s := (runAll BrokerSessions.init [.connectLocked 0 false]).getD BrokerSessions.init
+    s.client = some 0 ∧ (s.conn 0).disc = false ∧ (s.conn 0).pc = Pc.registered ∧
+    s.sessMap = some (s.conn 0).sess ∧ (s.sess (s.conn 0).sess).clean = false ∧
+    (runAll s ([.storeSess 0, .resubscribe 0, .subscribe 0 7, .subscribe 0 9, .unsubscribe 0 9] ++
+      [.noticeEnd 0, .cleanup 0, .close 0, .remove 0])).isSome = true := by decide
+
+/-- …and therefore the next CONNECT with cleanSession=false gets exactly those subscriptions back, for every
+placement of other connections' teardown steps: `normal_end_keeps_session` feeds `reconnect_restores`. -/
+theorem reconnect_after_normal_end {s s1 s' s'' : St} (r : Reach s) {k k' : Nat} {l t₁ t₂ u₁ u₂ u₃ : List Act}
+    (hc : s.client = some k) (hlive : (s.conn k).disc = false) (hpc : (s.conn k).pc = Pc.registered)
+    (hsm : s.sessMap = some (s.conn k).sess) (hper : (s.sess (s.conn k).sess).clean = false)
+    (hl : SessionTime k l) (h₁ : OthersTeardown k t₁) (h₂ : OthersTeardown k t₂)
+    (hr1 : runAll s l = some s1) (hrun1 : (s1.conn k).pc = Pc.running)
+    (hr2 : runAll s1 (Act.noticeEnd k :: (t₁ ++ Act.cleanup k :: (t₂ ++ [Act.close k, Act.remove k]))) = some s')
+    (hfresh : (s'.conn k').disc = false)
+    (g₁ : OthersTeardown k' u₁) (g₂ : OthersTeardown k' u₂) (g₃ : OthersTeardown k' u₃)
+    (hrun : runAll s' (Act.connectLocked k' false :: (u₁ ++ Act.storeSess k' :: (u₂ ++
+      Act.resubscribe k' :: u₃))) = some s'') :
+    s''.client = some k' ∧ s''.sessMap = some (s''.conn k').sess ∧
+    (s''.sess (s''.conn k').sess).topics = (s1.sess (s1.conn k).sess).topics ∧
+    (s''.sess (s''.conn k').sess).closed = false ∧
+    ∀ f ∈ (s1.sess (s1.conn k).sess).topics, f ∈ s''.topicMgr :=
+  reconnect_restores (reach_runAll (reach_runAll r hr1) hr2)
+    (normal_end_keeps_session hc hlive hpc hsm hper hl h₁ h₂ hr1 hrun1 hr2).1 hfresh g₁ g₂ g₃ hrun
 
 end EgVerif.C16
